@@ -39,6 +39,12 @@ func HarnessC20Registry() {
 		vfsWriteFile("templates/c"+n+".tw", "{{ v."+n+"("+c20Args+") }}")
 	}
 	vfsWriteFile("templates/plain.tw", "plain")
+	vfsWriteFile("templates/layouts/l.tw", "[@reserve(\"r\")]")
+	vfsWriteFile("templates/components/box.tw", "<@slot>")
+	for _, n := range []string{"a", "len"} {
+		vfsWriteFile("templates/i"+n+".tw", "@use(\"~l\")@insert(\"r\"){{ v."+n+"("+c20Args+") }}@end")
+		vfsWriteFile("templates/s"+n+".tw", "@component(\"~box\")@slot{{ v."+n+"("+c20Args+") }}@end@end")
+	}
 	tpl, lerr := newTemplate("templates", ".tw")
 	vAssert(lerr == nil && tpl != nil, "templates-load")
 	if first, ferr := tpl.String("plain", nil); ferr != nil || first != "plain" {
@@ -112,7 +118,14 @@ func HarnessC20Registry() {
 		var out string
 		var err error
 		if throughTemplate {
-			o, e := tpl.String("c"+name, data)
+			prefix := "c" // top level; for the names a and len also inside an insert block and inside a slot body
+			if name == "a" || name == "len" {
+				prefix = []string{"c", "i", "s"}[vChoice("position", 3)]
+			}
+			o, e := tpl.String(prefix+name, data)
+			if e == nil && prefix != "c" && len(o) >= 2 {
+				o = o[1 : len(o)-1] // the layout's [ ] / the component's < >
+			}
 			out = o
 			if e != nil {
 				err = e.Error()
